@@ -102,7 +102,9 @@ static void body(Ctx& C)
       Sweep S(lex, unit, rng);
       S.run_all();
       // growth after the fact: sequence types must track later additions
-      for (int pass = 0; pass < 2; ++pass)
+      for (int pass = 0; pass < 3; ++pass) {
+         // last pass: after every classic operation, cast and literal was told which user-supplied operation implements it
+         if (pass == 2) C.count("implementations_recorded_after_construction", S.annotate_late());
          for (auto& m : S.made) {
             Ck ck;
             Sweep::run_check(m, ck);
@@ -110,8 +112,9 @@ static void body(Ctx& C)
             if (pass == 0) { C.count("factory:" + m.factory); variants.insert(m.factory); C.eval(hash_mix(hash_bytes(m.factory), rng.next())); }
             for (auto& [aspect, acc, msg] : ck.fails)
                if (aspect & ASPECTS)
-                  C.viol(std::string(WHAT) + ":" + m.factory + ":" + acc, m.factory + ": " + msg, J().s("factory", m.factory).s("accessor", acc).n("iteration", it).str());
+                  C.viol(std::string(WHAT) + ":" + m.factory + ":" + acc, m.factory + ": " + msg + (pass == 2 ? " (after an implementation() was recorded on the node)" : ""), J().s("factory", m.factory).s("accessor", acc).n("iteration", it).n("pass", pass).str());
          }
+      }
       if (it == 0) {
          C.sample(J().s("factory", S.made[7].factory).s("kind", "sweep artifact").n("artifacts_in_one_sweep", (long long)S.made.size()).str());
          C.sample(J().s("factory", S.made[S.made.size() / 2].factory).s("kind", "sweep artifact").str());
